@@ -39,17 +39,24 @@ def main(argv):
     inconclusive = []
     # 1. slices, regenerated from the working tree
     units = {}; slice_recs = {}
+    def emit(name, mod):
+        t, f, recs = slicer.generate(REPO, mod.UNIT)
+        t = re.sub(r'\n[ \t]+\n', '\n\n', t); f = re.sub(r'(\n[ \t]*){3,}', '\n\n', f)
+        open(os.path.join(gendir, name + '_types.h'), 'w').write(t)
+        open(os.path.join(gendir, name + '_slice.c'), 'w').write(f)
+        return recs
+    emitted = set()
     for name in all_units():
         mod = importlib.import_module('units.' + name)
         jobs = [j for j in mod.JOBS if prop in j.get('props', []) and not (tier == 'quick' and j.get('tier') == 'thorough')]
         if not jobs: continue
         try:
-            t, f, recs = slicer.generate(REPO, mod.UNIT)
+            for dep in getattr(mod, 'DEPS', []):
+                if dep not in emitted:
+                    emit(dep, importlib.import_module('units.' + dep)); emitted.add(dep)
+            recs = emit(name, mod); emitted.add(name)
         except slicer.SliceError as e:
             print('INCONCLUSIVE: slicer: %s' % e); inconclusive.append('slicer[%s]: %s' % (name, e)); continue
-        t = re.sub(r'\n[ \t]+\n', '\n\n', t); f = re.sub(r'(\n[ \t]*){3,}', '\n\n', f)
-        open(os.path.join(gendir, name + '_types.h'), 'w').write(t)
-        open(os.path.join(gendir, name + '_slice.c'), 'w').write(f)
         units[name] = (mod, jobs); slice_recs[name] = recs
     if not units and not inconclusive:
         print('no jobs registered for', prop); return 2
